@@ -446,12 +446,21 @@ func runCasePre(v viewKind, op treefs.Op, sub string, prelude string) *verdict {
 			return
 		}
 		root := v.Root
+		// pendingOutside: what the parent cache holds as PENDING writes outside the view (prelude
+		// "pending-siblings"); until the flush the store lacks them, afterwards it must have them
+		pendingOutside := map[string]string{}
+		flushed := false
 		snap := func() string {
 			var parts []string
 			if v.Disk {
 				parts = append(parts, "host:"+outsideOf(hostFlat(filepath.Dir(e.hostDir)), "store/"+root))
 			} else {
 				flat, _ := fsx.Walk(e.mem)
+				if !flushed {
+					for p, c := range pendingOutside {
+						flat[p] = c
+					}
+				}
 				parts = append(parts, "store:"+outsideOf(flat, root))
 			}
 			for _, vis := range v.visible(e) {
@@ -469,6 +478,20 @@ func runCasePre(v viewKind, op treefs.Op, sub string, prelude string) *verdict {
 		case "mkdir-remove":
 			fsx.Exec(view, treefs.Op{Kind: "MkdirAll", P: "pre/dir"})
 			fsx.Exec(view, treefs.Op{Kind: "RemoveAll", P: "pre"})
+		case "pending-siblings":
+			// the parent CACHE holds pending (uncommitted) writes for nodes outside the view whose names
+			// begin with the view root's name (v-sibling, vfile, v2): whatever the view does, they reach
+			// the store with the next Commit
+			if e.cache != nil && v.flush != nil && len(v.visible(e)) > 0 {
+				for _, pw := range [][2]string{{root + "-sibling/f", "PENDING-1"}, {root + "file", "PENDING-2"}, {root + "2/deep/g", "PENDING-3"}} {
+					if r := fsx.Exec(e.cache, treefs.Op{Kind: "WriteFile", P: pw[0], Data: pw[1]}); r.Err == "" {
+						pendingOutside[pw[0]] = "file:" + pw[1]
+						for d := filepath.Dir(pw[0]); d != "."; d = filepath.Dir(d) {
+							pendingOutside[d] = "dir"
+						}
+					}
+				}
+			}
 		case "copies-out":
 			// the parent copied files and the whole view directory OUT of the view earlier (native copy
 			// of the store): the copies live outside the root and must not follow later writes
@@ -533,7 +556,9 @@ func runCasePre(v viewKind, op treefs.Op, sub string, prelude string) *verdict {
 		if v.flush != nil {
 			func() {
 				defer func() { recover() }()
-				v.flush(e)
+				// (a Commit that fails - e.g. on an operation the cache accepted and the remote refuses, a
+				// recorded C06 finding - may leave part of the pending writes unsent: not this check's subject)
+				flushed = v.flush(e) == nil
 			}()
 		}
 		after := snap()
@@ -654,6 +679,10 @@ func diffSnap(a, b string) string {
 		}
 	}
 	sort.Strings(d)
+	if len(d) == 0 {
+		// the same lines in another section (store / visible) or another multiplicity
+		return "outside-the-root snapshot changed:\nBEFORE\n" + a + "\nAFTER\n" + b
+	}
 	return "outside-the-root snapshot changed: " + strings.Join(d, " | ")
 }
 
@@ -706,6 +735,9 @@ func run(c *fw.Ctx) {
 			preludes := []string{"", "outside-sweep", "copies-out"}
 			if esc := pathClass(p); esc != "stays-inside" {
 				preludes = []string{"", "outside-sweep", "copies-out", "write", "list", "mkdir-remove"}
+			}
+			if v.flush != nil && strings.HasPrefix(v.Name, "child-of-cache") || strings.HasPrefix(v.Name, "child-of-child-of-cache") {
+				preludes = append(preludes, "pending-siblings")
 			}
 			for _, k := range cases {
 				for _, pre := range preludes {
